@@ -182,7 +182,11 @@ def _stamp(r, p, cg):
             if fi.key in inherit:
                 v = site[1].value if isinstance(site[1], ast.Assign) else None
                 if v is not None and isinstance(v, ast.Attribute) and v.attr == "code_tags":
-                    r.ok("C11.stamp", kk, "inserted token inherits the neighbour's tags")
+                    conds = Facts(fi.node).conds_at(site[1])
+                    if conds:
+                        r.fail("C11.stamp", kk + ":conditional", "the token that is inserted or moved takes its new neighbour's tags only when `%s`: a token moved off a tagged line keeps that line's tags (and a token moved onto one does not get them), so the tag no longer covers exactly the tagged lines" % conds[0][0][:60], fi.loc(site[1]))
+                    else:
+                        r.ok("C11.stamp", kk, "inserted token inherits the neighbour's tags, unconditionally")
                     continue
             r.fail("C11.stamp", kk, "code tags of a token are rewritten outside the parse-time stamper and the inheritance helpers (%s)" % site[0], fi.loc(site[1]))
     if n < 6:
@@ -369,6 +373,9 @@ def _machine(r, p):
 
 _R = "vsg/rule.py"
 VARIANTS = [
+    Variant("C11", "an inserted or moved token keeps tags it already has", "fire",
+            [("vsg/rules/utils.py", "def update_code_tags(oToken1, oToken2):\n    oToken2.code_tags = oToken1.code_tags", "def update_code_tags(oToken1, oToken2):\n    if not oToken2.code_tags:\n        oToken2.code_tags = oToken1.code_tags")],
+            rule="C11.stamp", key="conditional"),
     Variant("C11", "tag test dropped from add_violation", "fire",
             [(_R, "        if not violation.has_code_tag(self.unique_id):\n            if self.user_error_message", "        if True:\n            if self.user_error_message")], rule="C11.gate", key="guard"),
     Variant("C11", "tag asked with rule name only", "fire",
